@@ -53,11 +53,19 @@ impl<K: Ord + Copy, V: KeyValue<K>> SetCollection<K, V> for SetList<V> {
 
     #[inline]
     fn index_after(&self, index: u32) -> u32 {
-        index + 1
+        if (index as usize) + 1 < self.buffer.len() {
+            index + 1
+        } else {
+            EMPTY_REF
+        }
     }
 
     fn index_before(&self, index: u32) -> u32 {
-        index - 1
+        if index > 0 {
+            index - 1
+        } else {
+            EMPTY_REF
+        }
     }
 
     #[inline]
